@@ -47,6 +47,9 @@ BUDGET_S = {"quick": 480, "thorough": 2400}
 F_ENTRY = "assess_performance_and_checkpoint"
 L_ENTRY = "train_td7"
 SIG = "C15|{}|{}"
+# a defect that keeps state between calls shows with a failure kind that depends on what ran earlier in the process;
+# the replay gate therefore asks for a reproduced violation at the same entry point
+REPLAY_MATCH = "entry"
 # failure kinds (fixed vocabulary)
 K_RELEASED = "released-steps!=steps-collected-in-window"
 K_OPEN = "steps-released-inside-open-window"
